@@ -11,3 +11,8 @@ Definition run_0501 (input impl : sx) : sx :=
   | None => v_malformed
   | Some c => verdict (model_obs c) (impl_obs c) (c05_spec c) (SL [])
   end.
+
+(* kind 0502: the same case through the REAL fsutil.Send / fsutil.Receive (source = synthetic FS
+   over listing B, NotifyHashed, ContentHasher with a slow Sum): same decoding, same model, same
+   specification oracle. *)
+Definition run_0502 := run_0501.
